@@ -161,6 +161,97 @@ def register(OPS, drv):
             outs.append(json.loads(data))
         return outs
 
+    def op_gm_interleave(job):
+        """ONE World, ONE process: for every schedule fresh handler instances (one per slot, through the real
+        HandlerMultiplexer) are stepped by hand: [slot, "open" | "prepare" | "list"].  "list" records a copy of
+        what getdirlist() returns at that moment."""
+        w = drv.World(job)
+        try:
+            out = []
+            for sched in job["schedules"]:
+                hs, lists, exc = {}, [], None
+                try:
+                    for slot, act in sched:
+                        if act == "open":
+                            hs[slot] = HandlerMultiplexer.getHandler(job["selectors"][slot], "", None, w.config)
+                            hs[slot].getentry()
+                        elif act == "prepare":
+                            hs[slot].prepare()
+                        elif act == "list":
+                            lists.append([slot, [dump_entry(e) for e in hs[slot].getdirlist()]])
+                        else:
+                            raise ValueError("unknown action " + act)
+                except Exception as e:  # noqa
+                    exc = type(e).__name__ + ": " + str(e)
+                out.append({"lists": lists, "exc": exc, "classes": {str(k): type(v).__name__ for k, v in hs.items()}})
+            return out
+        finally:
+            w.close()
+
+    def op_gm_live(job):
+        """The real ThreadingTCPServer + GopherRequestHandler on an ephemeral port.  First every selector alone, one
+        after the other; then `rounds` rounds in which all selectors are requested at the same moment (threads
+        released by a barrier).  Plain Gopher requests."""
+        import socket
+        import threading
+        import pygopherd.server as pserver
+        spec = dict(job)
+        cfg = dict(spec.get("config") or {})
+        pg = dict(cfg.get("pygopherd", {}))
+        pg.update({"servername": "gopher.example", "advertisedport": "70", "timeout": "20"})
+        cfg["pygopherd"] = pg
+        spec["config"] = cfg
+        w = drv.World(spec)
+        srv = pserver.ThreadingTCPServer(w.config, ("127.0.0.1", 0), pserver.GopherRequestHandler)
+        srv.daemon_threads = True
+        th = threading.Thread(target=srv.serve_forever, kwargs={"poll_interval": 0.02}, daemon=True)
+        th.start()
+
+        def fetch(sel, barrier=None):
+            got, err = [], None
+            try:
+                s = socket.create_connection(srv.server_address[:2], timeout=20)
+                try:
+                    if barrier is not None:
+                        barrier.wait(timeout=20)
+                    s.sendall(drv.s2b(sel) + b"\r\n")
+                    while True:
+                        d = s.recv(1 << 16)
+                        if not d:
+                            break
+                        got.append(d)
+                finally:
+                    s.close()
+            except Exception as e:  # what a client would see
+                err = type(e).__name__ + ": " + str(e)
+            return {"out": drv.b2s(b"".join(got)), "exc": err}
+
+        try:
+            sels = job["selectors"]
+            sequential = [fetch(s) for s in sels]
+            rounds = []
+            for _ in range(job.get("rounds", 4)):
+                barrier = threading.Barrier(len(sels))
+                res = [None] * len(sels)
+
+                def run(i):
+                    res[i] = fetch(sels[i], barrier)
+
+                ts = [threading.Thread(target=run, args=(i,)) for i in range(len(sels))]
+                for t in ts:
+                    t.start()
+                for t in ts:
+                    t.join(timeout=30)
+                rounds.append(res)
+            return {"sequential": sequential, "rounds": rounds}
+        finally:
+            srv.shutdown()
+            srv.server_close()
+            th.join(timeout=5)
+            w.close()
+
+    OPS["gm_interleave"] = op_gm_interleave
+    OPS["gm_live"] = op_gm_live
     OPS["gm_history"] = op_gm_history
     OPS["gm_fresh"] = op_gm_fresh
     OPS["gm_world"] = op_gm_world
